@@ -50,7 +50,7 @@ func batchScenarios() []*core.Trace {
 			e.Disk.Release()
 			select {
 			case <-done:
-			case <-time.After(20 * time.Second):
+			case <-time.After(60 * time.Second):
 				e.Disk.Release()
 				<-done
 			}
@@ -85,7 +85,7 @@ func batchScenarios() []*core.Trace {
 		e.Disk.Release()
 		select {
 		case <-done:
-		case <-time.After(20 * time.Second):
+		case <-time.After(60 * time.Second):
 		}
 		e.ReadAll("after-checkpoint")
 		mustBegin(e, txfile.TxOptions{WALLimit: 1000})
